@@ -7,7 +7,10 @@ import SwcVerif.Props.C05
 #print axioms C18.isBifurcate_correct
 #print axioms C18.jumpPass_stop
 #print axioms C18.getDsu_fixpoint
-#print axioms C18.getDsu_sorted_forest_partial
+#print axioms C18.getDsu_sorted_forest
+#print axioms Dsu.jumpLoop_forest
+#print axioms C18.getDsu_forest
+#print axioms C18.forest_single_label_iff
 #print axioms C18.repair_somas
 #print axioms C18.repair_nearest_partial
 #print axioms C05.isSorted_iff
